@@ -65,7 +65,7 @@ def run(ctx):
         ctx.violation("stream tee is not transparent: " + m["what"], {"family": "starttls-tee", "scenario": m["scenario"], "observed": m})
     # negotiation traces with tee on/off and STARTTLS-like kinds (shares the C01 machinery)
     pools = nc.emit_pool(ctx)
-    trn, summn = nc.run_scenarios(ctx, pools["pool_quick.json"], n=1500 if quick else 20000, faults=False, name="c02-neg")
+    trn, summn = nc.run_scenarios(ctx, pools["pool_quick.json"], n=1500 if quick else 150000, faults=False, name="c02-neg")
     rejn, rn = nc.validate(ctx, trn)
     nc.report_rejections(ctx, trn, rejn, what="negotiation trace (forced STARTTLS / tee, C02) not a behaviour of Negotiation.tla")
     nself = selftest(ctx, tr) if not rej and not ctx.replay else 0
